@@ -271,7 +271,7 @@ def run_generated(spec, rec):
             rec.sample({"generated_recipe_seed": rseed, "size": size, "ops": len(recipe["ops"])})
 
 
-def synth(total, nseg, rng, multi=False, unknown=False, entropy=False):
+def synth(total, nseg, rng, multi=False, unknown=False, entropy=False, header_only_ok=True):
     """A synthetic plaintext of about `total` bytes in nseg segments (TableDataList string lists)."""
     from numbers_parser.generated import TSTArchives_pb2 as TST
     from numbers_parser.generated.mapping import NAME_ID_MAP
@@ -280,6 +280,7 @@ def synth(total, nseg, rng, multi=False, unknown=False, entropy=False):
     if total == 0:
         return b""
     segs = []
+    header_only = [0]
     per = max(1, total // nseg)
     for i in range(nseg):
         msgs = []
@@ -303,6 +304,10 @@ def synth(total, nseg, rng, multi=False, unknown=False, entropy=False):
                 m += iwa.enc_varint(1999 << 3 | 0) + b"\x07" + iwa.enc_varint(2000 << 3 | 2) + b"\x02vf"
             msgs.append(m)
         ai = ArchiveInfo(identifier=1000 + i)
+        if nseg >= 3 and i % 5 == 2 and not multi and header_only_ok:
+            # a segment whose header names an object but carries no message at all
+            msgs = []
+            header_only[0] += 1
         for m in msgs:
             mi = ai.message_infos.add()
             mi.type = NAME_ID_MAP["TST.TableDataList"]
@@ -514,7 +519,9 @@ def through_iwork_case(case, rec):
     rm = random.Random(f"C05-iwork-{case['seed']}-{case['stream']}-{case['j']}")
     kind = rm.choice(["plain", "unknown", "merge", "repeated", "repeated", "big"])
     if kind == "plain":
-        p = synth(rm.choice([50, 3000, 70000]), rm.choice([1, 3, 12]), rm)
+        # (the document reader hands the first message of every segment to its handler: a segment without messages is a
+        # well-formed stream for IWAFile, but not a document object - those are left to the stream-level parts)
+        p = synth(rm.choice([50, 3000, 70000]), rm.choice([1, 3, 12]), rm, header_only_ok=False)
     elif kind == "unknown":
         p = synth(rm.choice([200, 5000]), rm.choice([3, 9]), rm, multi=True, unknown=True)
     elif kind == "merge":
@@ -522,7 +529,7 @@ def through_iwork_case(case, rec):
     elif kind == "repeated":
         p = synth_repeated_ids(rm, rm.choice([2, 4, 9]))
     else:
-        p = synth(200000, 5, rm, entropy=True)
+        p = synth(200000, 5, rm, entropy=True, header_only_ok=False)
     b, _ = iwa.frame(p)
     want = iwa.segments(p)
     rec.hist("through_iwork_kind", kind)
